@@ -50,6 +50,8 @@ def shapes():
     op('unary-prec', lambda i, n: ('+', ('/', ('-', 7), 2), 8), lambda i, n: ('+', L(0, 1), ('*', ('%', ('-', 9), 4), ('*', 2, W_))))
     # a string literal with a hex escape that is not its first character (little-endian: "0\\x41" is 0x4130), and a char literal with one
     op('str-hex', lambda i, n: ('>>', ('raw', '"0\\x41"', 0x4130), 8), lambda i, n: ('+', L(0, 1), ('*', ('-', ('raw', "'\\x02'", 2), 2), W_)))
+    # a conditional whose else-branch is another conditional, without parentheses: c1 ? a : (c2 ? b : d)
+    op('cond-chain', lambda i, n: ('?:', 1, 0, ('?:', 0, 5, 7)), lambda i, n: ('+', L(0, 1), ('*', ('?:', 1, 0, ('?:', 1, 2, 4)), W_)))
     op('jump-2^w', zero, lambda i, n: ('+', ('<<', 1, W_), ('*', 2, W_)))  # a jump word of 2^w + 2w: does not fit (a relative-jump file version must not wrap it)
     op('jump-neg', zero, lambda i, n: ('-', L(0, 1), ('*', 2, W_)))        # a negative jump word unless far from 0  # negative / out-of-range flip word unless far from 0
 
